@@ -53,7 +53,33 @@ def auto_partvars(fn):
             if isinstance(t, ast.Name) and isinstance(v, (ast.Compare, ast.BoolOp)) \
                     and tests.get(t.id, 0) >= 2:
                 out.append(t.id)
+            # an enum-valued local initialised from an enum constant and compared later
+            if isinstance(t, ast.Name) and isinstance(v, ast.Attribute) and isinstance(v.value, ast.Name) \
+                    and v.value.id in ("StepType", "StorageType"):
+                out.append(t.id)
     return tuple(dict.fromkeys(out))
+
+
+def written_kinds(fn):
+    """kinds of data the generator writes to checkpoint storage (not WORK):
+    'I' restart data, 'A' adjoint dependencies, '?' flags not literal"""
+    kinds = set()
+    for n in ast.walk(fn):
+        if isinstance(n, ast.Yield) and isinstance(n.value, ast.Call) and isinstance(n.value.func, ast.Name) \
+                and n.value.func.id == "Forward" and len(n.value.args) == 5:
+            wi, wa, sto = n.value.args[2:5]
+            if isinstance(sto, ast.Attribute) and isinstance(sto.value, ast.Name) and sto.value.id == "StorageType" \
+                    and sto.attr in ("WORK", "NONE"):
+                continue
+            lit = [a.value if isinstance(a, ast.Constant) and isinstance(a.value, bool) else None for a in (wi, wa)]
+            if None in lit:
+                kinds.add("?")
+            else:
+                if lit[0]:
+                    kinds.add("I")
+                if lit[1]:
+                    kinds.add("A")
+    return kinds
 
 
 class GenRun:
@@ -76,6 +102,7 @@ class Model:
         self.repo = repo
         self._init_cache = {}
         self._run_cache = {}
+        self._interp_cache = {}
 
     # ------------------------------------------------------------ classes
     def concrete_classes(self):
@@ -209,8 +236,14 @@ class Model:
     def configs(self, cname, fn):
         """finite-domain attributes read by the generator -> list of valuations"""
         entries, _ = self.init_facts(cname)
-        used = {n.attr for n in ast.walk(fn) if isinstance(n, ast.Attribute)
-                and isinstance(n.value, ast.Name) and n.value.id == "self"}
+        # only attributes the generator branches on need a split; attributes that
+        # merely flow into action arguments keep their value set inside the state
+        used = set()
+        for t in ast.walk(fn):
+            if isinstance(t, (ast.If, ast.While, ast.IfExp)):
+                for n in ast.walk(t.test):
+                    if isinstance(n, ast.Attribute) and isinstance(n.value, ast.Name) and n.value.id == "self":
+                        used.add(n.attr)
         doms = {}
         for st in entries:
             for s, (k, vals) in st.enums.items():
@@ -224,12 +257,24 @@ class Model:
     # ------------------------------------------------------------ generators
     def hooks_for(self, fn):
         pv = auto_partvars(fn)
+        kinds = written_kinds(fn)
 
         def load_kind(interp, rec, st):
+            """what a Copy/Move to WORK puts there: I restart data, A adjoint
+            dependencies of one step, ? unknown"""
+            if kinds == {"I"}:
+                return "I"
+            if kinds == {"A"}:
+                return "A"
+            if "?" in kinds or not kinds:
+                return "?"
             for v in pv:
-                if st.enum_single(v) == "StepType.WRITE_ADJ_DEPS":
+                e = st.enum_single(v)
+                if e == "StepType.WRITE_ADJ_DEPS":
                     return "A"
-            return "I"
+                if e == "StepType.WRITE_ICS":
+                    return "I"
+            return "?"
         return pv, {"load_kind": load_kind}
 
     def runs(self, cname):
@@ -250,11 +295,27 @@ class Model:
                     ent.append(e)
             if not ent:
                 continue
-            it = Interp(fn, entry=ent, partvars=pv + tuple(cfg), hooks=hooks)
-            it.run()
+            # classes sharing one generator (the Revolve family) with the same
+            # facts about the attributes it reads are analysed once
+            reads = {n.attr for n in ast.walk(fn) if isinstance(n, ast.Attribute)
+                     and isinstance(n.value, ast.Name) and n.value.id == "self"}
+            key = (id(fn), tuple(sorted(cfg.items())), tuple(sorted(self._freeze(e, reads) for e in ent)))
+            it = self._interp_cache.get(key)
+            if it is None:
+                it = Interp(fn, entry=ent, partvars=pv + tuple(cfg), hooks=hooks)
+                it.run()
+                self._interp_cache[key] = it
             out.append(GenRun(cname, rel, owner.name, fn, cfg, it, ent))
         self._run_cache[cname] = out
         return out
+
+    @staticmethod
+    def _freeze(st, reads):
+        keep = {"self." + a for a in reads}
+        rows = tuple(sorted(repr(r) for r in st.rows.values() if r.syms() <= keep | {"sys.maxsize"}))
+        ineq = tuple(sorted(repr(i) for i in st.ineq if i.syms() <= keep | {"sys.maxsize"}))
+        enums = tuple(sorted((k, v[0], tuple(sorted(v[1]))) for k, v in st.enums.items() if k in keep))
+        return (rows, ineq, enums)
 
     def all_runs(self):
         for cname in self.concrete_classes():
